@@ -38,3 +38,112 @@ pub fn parse_hex_i64(s: &str) -> i64 {
         i64::from_str_radix(s, 16).expect("hex")
     }
 }
+
+pub mod gen_tables;
+
+use std::process::{Child, ChildStdin, Command, Stdio};
+use std::sync::mpsc::{channel, Receiver};
+use std::time::Duration;
+
+struct Worker {
+    child: Child,
+    stdin: ChildStdin,
+    rx: Receiver<String>,
+}
+
+fn spawn_worker() -> Worker {
+    let exe = std::env::current_exe().expect("exe");
+    // cap the address space of the worker: a non-terminating build can allocate without bound
+    let mut child = Command::new("sh")
+        .arg("-c")
+        .arg("ulimit -v 6000000; exec \"$0\"")
+        .arg(exe)
+        .env("VERIF_WORKER", "1")
+        .stdin(Stdio::piped())
+        .stdout(Stdio::piped())
+        .stderr(Stdio::null())
+        .spawn()
+        .expect("spawn worker");
+    let stdin = child.stdin.take().unwrap();
+    let stdout = child.stdout.take().unwrap();
+    let (tx, rx) = channel();
+    std::thread::spawn(move || {
+        let r = io::BufReader::new(stdout);
+        for line in r.lines() {
+            match line {
+                Ok(l) => {
+                    if tx.send(l).is_err() {
+                        break;
+                    }
+                }
+                Err(_) => break,
+            }
+        }
+    });
+    Worker { child, stdin, rx }
+}
+
+/// Run `f` on every input line in a supervised child process: a case that does
+/// not answer within `deadline_ms` is reported as `<case>\tHANG\t-` (the child is
+/// killed and restarted), a child that dies as `<case>\tCRASH\t-`.
+pub fn supervised<F: FnMut(&str) -> String>(deadline_ms: u64, mut f: F) {
+    if std::env::var("VERIF_WORKER").is_ok() {
+        quiet_panics();
+        let stdin = io::stdin();
+        let stdout = io::stdout();
+        for line in stdin.lock().lines() {
+            let line = line.expect("read");
+            let r = f(&line);
+            let mut out = stdout.lock();
+            writeln!(out, "{}", r).expect("write");
+            out.flush().expect("flush");
+        }
+        return;
+    }
+    let stdin = io::stdin();
+    let stdout = io::stdout();
+    let mut out = io::BufWriter::new(stdout.lock());
+    let mut w = spawn_worker();
+    for line in stdin.lock().lines() {
+        let line = line.expect("read");
+        if line.is_empty() {
+            continue;
+        }
+        let sent = writeln!(w.stdin, "{}", line).and_then(|_| w.stdin.flush());
+        let ans = if sent.is_err() {
+            Err("CRASH")
+        } else {
+            match w.rx.recv_timeout(Duration::from_millis(deadline_ms)) {
+                Ok(l) => Ok(l),
+                Err(std::sync::mpsc::RecvTimeoutError::Timeout) => Err("HANG"),
+                Err(_) => Err("CRASH"),
+            }
+        };
+        match ans {
+            Ok(l) => writeln!(out, "{}", l).expect("write"),
+            Err(kind) => {
+                let _ = w.child.kill();
+                let _ = w.child.wait();
+                writeln!(out, "{}\t{}\t-", line, kind).expect("write");
+                w = spawn_worker();
+            }
+        }
+    }
+    out.flush().expect("flush");
+    let _ = w.child.kill();
+    let _ = w.child.wait();
+}
+
+pub fn hex_to_string(h: &str) -> String {
+    if h == "-" || h.is_empty() {
+        return String::new();
+    }
+    h.split(',').map(|x| char::from_u32(u32::from_str_radix(x, 16).expect("hex cp")).expect("cp")).collect()
+}
+
+pub fn string_to_hex(s: &str) -> String {
+    if s.is_empty() {
+        return "-".to_string();
+    }
+    s.chars().map(|c| format!("{:x}", c as u32)).collect::<Vec<_>>().join(",")
+}
